@@ -807,6 +807,13 @@ def concrete(t, env, width=32):
                 return (v[0] == "none") == (nm == "is_none")
             raise KeyError(t)
         a = [concrete(x, env, width) for x in t[2]]
+        if len(a) == 2 and nm in ("lt", "le", "gt", "ge", "eq", "ne") and all(isinstance(x, tuple) and x and all(isinstance(y, (int, bool)) for y in x) for x in a):
+            # comparison of tuples: lexicographic, in the plain numeric order of the components
+            x, y = tuple(int(v) for v in a[0]), tuple(int(v) for v in a[1])
+            return {"lt": x < y, "le": x <= y, "gt": x > y, "ge": x >= y, "eq": x == y, "ne": x != y}[nm]
+        if len(a) == 2 and nm in ("lt", "le", "gt", "ge") and all(isinstance(x, (int, bool)) for x in a) and ("cmp::" in t[1] or "core::cmp" in t[1]):
+            x, y = int(a[0]), int(a[1])
+            return {"lt": x < y, "le": x <= y, "gt": x > y, "ge": x >= y}[nm]
         if len(a) == 2 and all(isinstance(x, (int, bool)) for x in a):
             x, y = int(a[0]), int(a[1])
             if nm in ("wrapping_add", "wrapping_sub", "wrapping_mul"):
